@@ -150,10 +150,14 @@ func runBlockRepo(c *Case) ([]Obs, any) {
 				return Obs{OK, b2i(fired), 1}
 			case "revert_fault": // t j : Revert(t) during which the j-th storage operation returns an error; if the revert
 				// reports the error it is tried again without a fault (the peer announces the fork again)
-				store.FailAt = store.OpCount() + int(op.Int(1))
+				if j := int(op.Int(1)); j > 0 {
+					store.FailAt = store.OpCount() + j
+				} else { // -j: the j-th write / remove of the revert
+					store.FailAtMut = store.MutCount() - j
+				}
 				err := repo.Revert(ctx, int(op.Int(0)))
 				fired := store.Failed
-				store.FailAt = 0
+				store.FailAt, store.FailAtMut = 0, 0
 				store.Failed = false
 				if err != nil {
 					if err2 := repo.Revert(ctx, int(op.Int(0))); err2 != nil {
